@@ -216,3 +216,6 @@ def replay(witness):
     fetches = [e[1] for e in impl['events'] if e[0] == 'fetch']
     half = len(fetches) // 2
     return bool(len(fetches) % 2 or fetches[:half] != fetches[half:])
+
+
+LEVEL_TEXT_EXT = ('C17Bridge: the include code of the statement machine (Machine.execute) instantiated with the C17 resolution is the C17 include model: traced machine = machine (all programs), machine_refines_include / machine_fetch_order / machine_include_errors for jump-free programs, step theorems (global scope, return ends only the include, base restored, counter shared) for all programs.')
